@@ -476,6 +476,20 @@ type ServiceSafePoint struct {
 	SafePoint uint64 `json:"safe_point"`
 }
 
+// serviceSafePointKey builds the storage key of a service safe point. The service
+// id is chosen by the client and is joined as a path element (here and again by
+// the etcd backend), so an id that path cleaning alters ("..", "a/../b", "a/",
+// "/", ".") would address another key: another service's entry or, for "..", the
+// cluster GC safe point itself. Such ids are refused.
+func serviceSafePointKey(serviceID string) (string, error) {
+	prefix := path.Join(gcPath, "safe_point", "service")
+	key := path.Join(prefix, serviceID)
+	if serviceID != "" && key != prefix+"/"+serviceID {
+		return "", errors.Errorf("invalid service id %q of service safepoint", serviceID)
+	}
+	return key, nil
+}
+
 // SaveServiceGCSafePoint saves a GC safepoint for the service
 func (s *Storage) SaveServiceGCSafePoint(ssp *ServiceSafePoint) error {
 	if ssp.ServiceID == "" {
@@ -486,7 +500,10 @@ func (s *Storage) SaveServiceGCSafePoint(ssp *ServiceSafePoint) error {
 		return errors.New("TTL of gc_worker's service safe point must be infinity")
 	}
 
-	key := path.Join(gcPath, "safe_point", "service", ssp.ServiceID)
+	key, err := serviceSafePointKey(ssp.ServiceID)
+	if err != nil {
+		return err
+	}
 	value, err := json.Marshal(ssp)
 	if err != nil {
 		return err
@@ -500,7 +517,10 @@ func (s *Storage) RemoveServiceGCSafePoint(serviceID string) error {
 	if serviceID == gcWorkerServiceSafePointID {
 		return errors.New("cannot remove service safe point of gc_worker")
 	}
-	key := path.Join(gcPath, "safe_point", "service", serviceID)
+	key, err := serviceSafePointKey(serviceID)
+	if err != nil {
+		return err
+	}
 	return s.Remove(key)
 }
 
